@@ -163,6 +163,11 @@ func (e *Evidence) Plan(c *Ctx) []hist.TxSpec {
 				out = append(out, Build(c, "STAKE", StakeMsg(v, "10"), "stake while frozen (must fail)", &v.Stake, ConsAccount(v)))
 				out = append(out, Build(c, "UNSTAKE", &staking.Unstake{ValidatorAddress: v.ValAddr, StakeAddress: v.Stake.Addr, Stake: txb.Amt("OLT", "10")}, "unstake while frozen (must fail)", &v.Stake, ConsAccount(v)))
 				out = append(out, Build(c, "WITHDRAW", &staking.Withdraw{ValidatorAddress: v.ValAddr, StakeAddress: v.Stake.Addr, Stake: txb.Amt("OLT", "1")}, "withdraw while frozen (must fail)", &v.Stake, ConsAccount(v)))
+				// ... and the same withdrawal naming, as the validator, another address its operator holds the key of
+				u := c.W.Users[5%len(c.W.Users)]
+				sp := Build(c, "WITHDRAW", &staking.Withdraw{ValidatorAddress: u.Addr, StakeAddress: v.Stake.Addr, Stake: txb.Amt("OLT", "1")}, "withdraw while frozen, naming another address as the validator (must fail)", &v.Stake, u)
+				sp.Meta = map[string]string{"validator": u.Addr.String(), "amount": "1"}
+				out = append(out, sp)
 			}
 		case 5, 8, 11, 14, 17, 20, 23, 26:
 			// (asked for again every few blocks while it is refused: the configured release time may not be over)
